@@ -513,16 +513,14 @@ func (k *KVStore) scanCommon(cursor uint64, expr string, count int, f func(e sto
 	}
 
 	if tableCursor == 0 {
-		_, ok := k.tablesByCoefficient[cf+1]
-		if !ok {
-			cf, err = k.findCoefficient(cf)
-			if err != nil {
-				// Invalid cursor
-				return 0, nil
-			}
+		// The next table. The coefficients may have holes after compaction or
+		// a table transfer: continue with the next existing one.
+		next, err := k.findCoefficient(cf)
+		if err != nil {
+			// This was the last table.
+			return 0, nil
 		}
-		// The next table
-		return k.tableSize * (cf + 1), nil
+		return k.tableSize * next, nil
 	}
 
 	return tableCursor + (k.tableSize * cf), nil
